@@ -142,6 +142,7 @@ MUTANTS = {
         ("add_noise_for_snr complex std", SNRU, "noise_std = torch.sqrt(noise_power / 2)", "noise_std = torch.sqrt(noise_power) / 2", "violation", "add_noise_for_snr"),
         ("nonlinear noise on input", AN, "y = _apply_noise(y, snr_db=self.snr_db, noise_power=self.avg_noise_power)", "y = y + (_apply_noise(x, snr_db=self.snr_db, noise_power=self.avg_noise_power) - x)", "violation", "NonlinearChannel"),
         ("laplace sampler two draws", AN, "        abs_shifted_u = torch.abs(shifted_u)", "        abs_shifted_u = torch.abs(torch.rand(shape, device=device) - 0.5)", "violation", "LAPLACE-UNIT"),
+        ("noise floor in snr mode", AN, "        noise_power = snr_to_noise_power(signal_power, snr_db_float)\n\n    # Validate", "        noise_power = snr_to_noise_power(signal_power, snr_db_float)\n        noise_power = torch.clamp(noise_power, min=torch.finfo(torch.float32).eps)\n\n    # Validate", "violation", "_apply_noise"),
         ("twin: P/2 instead of P*0.5", AN, "noise_power_component = noise_power * 0.5", "noise_power_component = noise_power / 2", "silent"),
         ("twin: sqrt split", AN, "component_scale = scale / (2**0.5)", "component_scale = scale * (0.5**0.5)", "silent"),
         ("twin: rename", AN, "        noise_real = torch.randn_like(x.real) * torch.sqrt(noise_power_component)\n        noise_imag = torch.randn_like(x.imag) * torch.sqrt(noise_power_component)\n        noise = torch.complex(noise_real, noise_imag)", "        std = torch.sqrt(noise_power_component)\n        n_re = torch.randn_like(x.real) * std\n        n_im = torch.randn_like(x.imag) * std\n        noise = torch.complex(n_re, n_im)", "silent"),
@@ -216,6 +217,25 @@ MUTANTS = {
         ("twin: abs squared in hard", PSK, "            distances = torch.abs(expanded_y - expanded_const)\n            closest_indices = torch.argmin(distances, dim=-1)  # (..., N)", "            distances = torch.abs(expanded_y - expanded_const) ** 2\n            closest_indices = torch.argmin(distances, dim=-1)  # (..., N)", "silent"),
         ("twin: argmax of negated", QAM, "closest_indices = torch.argmin(distances, dim=-1)  # (..., N)", "closest_indices = torch.argmax(-distances, dim=-1)  # (..., N)", "silent"),
         ("twin: noise var factor order", QAM, "llrs[..., bit_idx] = (dist_1 - dist_0) / (2 * noise_var_tensor)", "llrs[..., bit_idx] = 0.5 * (dist_1 - dist_0) / noise_var_tensor", "silent"),
+    ],
+    "C14": [
+        ("qpsk duplicate point", PSK, "im_part = torch.tensor([1.0, -1.0, 1.0, -1.0], dtype=torch.float) * self._normalization\n        self.register_buffer(\"constellation\", torch.complex(re_part, im_part))\n\n        # Bit patterns for each symbol - Gray coded", "im_part = torch.tensor([1.0, -1.0, 1.0, 1.0], dtype=torch.float) * self._normalization\n        self.register_buffer(\"constellation\", torch.complex(re_part, im_part))\n\n        # Bit patterns for each symbol - Gray coded", "violation", "LITERAL-TABLE"),
+        ("qpsk labels not gray", PSK, "                [0.0, 1.0],  # Fourth quadrant\n                [1.0, 0.0],  # Second quadrant\n                [1.0, 1.0],  # Third quadrant", "                [0.0, 1.0],  # Fourth quadrant\n                [1.0, 1.0],  # Second quadrant\n                [1.0, 0.0],  # Third quadrant", "violation", "LITERAL-TABLE"),
+        ("qpsk duplicate label", PSK, "                [1.0, 1.0],  # Third quadrant", "                [1.0, 0.0],  # Third quadrant", "violation", "LITERAL-TABLE"),
+        ("qpsk normalisation constant", PSK, "        self._normalization = 1 / (2**0.5) if normalize else 1.0\n\n        # QPSK mapping table with Gray coding", "        self._normalization = 0.5 if normalize else 1.0\n\n        # QPSK mapping table with Gray coding", "violation", "LITERAL-TABLE"),
+        ("oqpsk normalisation constant", OQPSK, "        self._normalization = 1 / (2**0.5) if normalize else 1.0\n\n        # OQPSK constellation", "        self._normalization = 1 / 2 if normalize else 1.0\n\n        # OQPSK constellation", "violation", "LITERAL-TABLE"),
+        ("pi4 rotated angles", PI4, "angles_rotated = torch.tensor([0, 2, 6, 4]) * torch.pi / 4", "angles_rotated = torch.tensor([0, 2, 4, 6]) * torch.pi / 4", "violation", "LITERAL-TABLE"),
+        ("pi4 gray labels old", PI4, "        bit_patterns = torch.tensor([[0, 0], [0, 1], [1, 0], [1, 1]], dtype=torch.float)\n\n        self.register_buffer(\"bit_patterns\", bit_patterns)", "        bit_patterns = torch.tensor([[0, 0], [0, 1], [1, 1], [1, 0]], dtype=torch.float)\n\n        self.register_buffer(\"bit_patterns\", bit_patterns)", "violation", "LITERAL-TABLE"),
+        ("psk gray map wrong", PSK, "                gray_idx = i ^ (i >> 1)  # Binary to Gray conversion\n                bin_str = format(gray_idx, f\"0{self._bits_per_symbol}b\")\n                for j, bit in enumerate(bin_str):\n                    bit_patterns[i, j] = int(bit)\n        else:\n            # Standard binary coding\n            for i in range(self.order):\n                bin_str = format(i, f\"0{self._bits_per_symbol}b\")\n                for j, bit in enumerate(bin_str):\n                    bit_patterns[i, j] = int(bit)\n\n        # Create mapping from bit patterns", "                gray_idx = i ^ (i >> 2)  # Binary to Gray conversion\n                bin_str = format(gray_idx, f\"0{self._bits_per_symbol}b\")\n                for j, bit in enumerate(bin_str):\n                    bit_patterns[i, j] = int(bit)\n        else:\n            # Standard binary coding\n            for i in range(self.order):\n                bin_str = format(i, f\"0{self._bits_per_symbol}b\")\n                for j, bit in enumerate(bin_str):\n                    bit_patterns[i, j] = int(bit)\n\n        # Create mapping from bit patterns", "violation", "GENERATED-TABLE"),
+        ("qam normalisation only for gray", QAM, "        if self.normalize:\n            # Normalize to unit average energy\n            energy = torch.mean(torch.abs(constellation) ** 2)\n            constellation = constellation / torch.sqrt(energy)\n", "        if self.gray_coding:\n            if self.normalize:\n                energy = torch.mean(torch.abs(constellation) ** 2)\n                constellation = constellation / torch.sqrt(energy)\n", "violation", "NORMALISE"),
+        ("qam normalise by energy", QAM, "            constellation = constellation / torch.sqrt(energy)", "            constellation = constellation / energy", "violation", "NORMALISE"),
+        ("pam normalise mean abs", PAM, "            energy = torch.mean(levels**2)", "            energy = torch.mean(torch.abs(levels))", "violation", "NORMALISE"),
+        ("qam gray axis swapped", QAM, "                    j_gray = binary_to_gray(j)", "                    j_gray = j", "violation", "GENERATED-TABLE"),
+        ("gray_to_binary log step", "kaira/modulations/utils.py", "    mask = num\n    result = num\n\n    while mask > 0:\n        mask >>= 1\n        result ^= mask\n\n    return result", "    result = num\n    result ^= result >> 16\n    result ^= result >> 8\n    result ^= result >> 4\n    result ^= result >> 2\n    result ^= result >> 1\n    return result", "violation", "GRAY-UTIL"),
+        ("binary_to_gray shift 2", "kaira/modulations/utils.py", "    return num ^ (num >> 1)", "    return num ^ (num >> 2)", "violation", "GRAY-UTIL"),
+        ("array form calls wrong scalar", "kaira/modulations/utils.py", "        binary[i] = gray_to_binary(int(num))", "        binary[i] = binary_to_gray(int(num))", "violation", "GRAY-UTIL"),
+        ("twin: qpsk label floats as ints", PSK, "                [0.0, 1.0],  # Fourth quadrant", "                [0, 1],  # Fourth quadrant", "silent"),
+        ("twin: normalisation literal form", PSK, "        self._normalization = 1 / (2**0.5) if normalize else 1.0\n\n        # QPSK mapping table with Gray coding", "        self._normalization = 0.5**0.5 if normalize else 1.0\n\n        # QPSK mapping table with Gray coding", "silent"),
     ],
 }
 
